@@ -738,6 +738,8 @@ struct Node final : vf::INode {
 #endif
 		(void) on;
 	}
+	uint8_t saveFill = 0xB7;
+	void setSaveFill(uint8_t v) override { saveFill = v; }
 	void save(std::vector<uint8_t>& out) const override {
 		out.clear();
 #if VF_SERIAL
@@ -745,7 +747,7 @@ struct Node final : vf::INode {
 		struct Box { uint8_t pre[32]; typename Instance::SerialBuffer buf; uint8_t post[32]; };
 		Box box;
 		std::memset(box.pre, 0xC3, sizeof(box.pre)); std::memset(box.post, 0xC3, sizeof(box.post));
-		std::memset(&box.buf.data(), 0xB7, sizeof(box.buf.data()));   // a buffer that was used before: save() must not depend on its content
+		std::memset(&box.buf.data(), saveFill, sizeof(box.buf.data()));   // a buffer that was used before: save() must not depend on its content
 		{ vf::LibScope ls; static_cast<const Instance*>(inst)->save(box.buf); }
 		bool intact = true;
 		for (unsigned i = 0; i < 32; ++i) intact = intact && box.pre[i] == 0xC3 && box.post[i] == 0xC3;
